@@ -20,7 +20,9 @@ CTORS = ["Field", "from_raw", "makeField", "Field_of_AnyArray", "MultiField.from
          "makeField_dict", "full", "scalar", "from_random", "arith", "MultiField.full"]
 SRC_KINDS = ["fresh", "view_of_base", "noncontig", "zero_d", "complex", "fortran", "subclass", "memmap",
              "recarray_view", "masked"]
-DERIVES = ["cast_domain", "real", "imag", "conjugate", "neg", "at", "extract", "getitem_key"]
+DERIVES = ["cast_domain", "real", "imag", "conjugate", "neg", "at", "extract", "getitem_key",
+           # fields that come into existence by (un)pickling / copying an existing field
+           "pickle_default", "pickle_p2", "pickle_highest", "deepcopy", "copy_copy"]
 HANDLES = ["val", "raw", "asnumpy", "val.asnumpy", "val.val", "val_slice", "val_view", "val_reshape", "val_T",
            "val_real", "val_rw", "asnumpy_rw", "val_flatten_index", "to_dict_val"]
 OPS = ["makeOp", "Adder", "GaussianEnergy", "ScalingLike"]
@@ -253,6 +255,19 @@ def step_derive(w, how, i, pick):
             if not isinstance(f, ift.MultiField):
                 return
             g = f.extract_by_keys(["a"])
+        elif how.startswith("pickle_"):
+            import pickle
+            proto = {"pickle_default": pickle.DEFAULT_PROTOCOL, "pickle_p2": 2, "pickle_highest": pickle.HIGHEST_PROTOCOL}[how]
+            g = pickle.loads(pickle.dumps(f, protocol=proto))
+            w.stats["fields_from_pickle_or_copy"] = w.stats.get("fields_from_pickle_or_copy", 0) + 1
+        elif how == "deepcopy":
+            import copy
+            g = copy.deepcopy(f)
+            w.stats["fields_from_pickle_or_copy"] = w.stats.get("fields_from_pickle_or_copy", 0) + 1
+        elif how == "copy_copy":
+            import copy
+            g = copy.copy(f)
+            w.stats["fields_from_pickle_or_copy"] = w.stats.get("fields_from_pickle_or_copy", 0) + 1
         else:
             g = leaf(f, pick)
     except (TypeError, NotImplementedError, AttributeError, ValueError):
